@@ -540,10 +540,52 @@ func c05Eval(cs c05Case, seen func(string)) (string, string) {
 	got := EnvDel(o)
 	want := Esc(replaceSpans([]byte(ref)))
 	if bytes.Equal(got, want) {
+		if cs.Config == 0 || format == "<%v>" {
+			if d := c05Routes(cs, format, rargs, want); d != "" {
+				return "route:" + sh.Name, d
+			}
+		}
 		return "", ""
 	}
 	desc := fmt.Sprintf("registry config %04b, shape %q, leaves (%s, %s): Sprintf(%q) = %q; outside envelopes %q, want %q (fmt with unsafe extents removed; fmt printed %q)", cs.Config, sh.Name, la.Name, lb.Name, format, out, got, want, ref)
 	return "cell:" + sh.Name, desc
+}
+
+// c05Routes: the same cell through the other printing routes (a printer handed to a function: Printf with the whole
+// format; for the bare %v also Print with the operand alone and with a neighbour). Classification is a matter of
+// the value, not of the entry point.
+func c05Routes(cs c05Case, format string, rargs []interface{}, want []byte) string {
+	var outs []redact.RedactableString
+	var names []string
+	if _, pan := recoverTo(func() {
+		outs = append(outs, redact.Sprintfn(func(w redact.SafePrinter) { w.Printf(format, rargs...) }))
+		names = append(names, "Sprintfn{Printf(format, ...)}")
+		if format == "<%v>" && len(rargs) == 1 {
+			outs = append(outs, redact.Sprintfn(func(w redact.SafePrinter) { w.SafeString("<"); w.Print(rargs[0]); w.SafeString(">") }))
+			names = append(names, "Sprintfn{SafeString(<) Print(x) SafeString(>)}")
+			outs = append(outs, redact.Sprintfn(func(w redact.SafePrinter) { w.Print(redact.Safe("<"), rargs[0], redact.Safe(">")) }))
+			names = append(names, "Sprintfn{Print(Safe(<), x, Safe(>))}")
+		}
+	}); pan {
+		return ""
+	}
+	for i, out := range outs {
+		o := []byte(out)
+		if !WF(o) {
+			continue
+		}
+		got := EnvDel(o)
+		if i == 2 {
+			got = bytes.ReplaceAll(got, []byte(" "), nil) // Print puts spaces between operands
+			if bytes.Equal(got, bytes.ReplaceAll(want, []byte(" "), nil)) {
+				continue
+			}
+		}
+		if !bytes.Equal(got, want) {
+			return fmt.Sprintf("registry config %04b, shape %d: %s = %q; outside envelopes %q, want %q as through Sprintf(%q)", cs.Config, cs.Shape, names[i], out, got, want, format)
+		}
+	}
+	return ""
 }
 
 func checkC05(c *Ctx) {
